@@ -280,7 +280,11 @@ func (r *result) adjustAnnotations(annotations map[string]string, plugin string)
 	for k := range del {
 		r.owners.clearAnnotation(id, k)
 		delete(create.Container.Annotations, k)
-		delete(r.reply.adjust.Annotations, k)
+		// An entry whose key is itself marked can only be the removal marker of
+		// another annotation (a marked key is never set), leave that one alone.
+		if _, marked := IsMarkedForRemoval(k); !marked {
+			delete(r.reply.adjust.Annotations, k)
+		}
 		r.reply.adjust.Annotations[MarkForRemoval(k)] = ""
 	}
 
@@ -472,9 +476,13 @@ func (r *result) adjustEnv(env []*KeyValue, plugin string) error {
 	// next remove marked environment variables from collected adjustments
 	cleared := []*KeyValue{}
 	for _, e := range r.reply.adjust.Env {
-		if _, removed := del[e.Key]; removed {
-			r.owners.clearEnv(id, e.Key)
-			continue
+		// A collected removal marker of another variable is not an adjustment
+		// of a variable that happens to be named like the marker.
+		if _, marked := e.IsMarkedForRemoval(); !marked {
+			if _, removed := del[e.Key]; removed {
+				r.owners.clearEnv(id, e.Key)
+				continue
+			}
 		}
 		cleared = append(cleared, e)
 	}
